@@ -994,6 +994,18 @@ class Interp:
         return self.get_attr(st, base, n.attr, n, tree)
 
     def ev_Tuple(self, st, n, tree):
+        if any(isinstance(e, ast.Starred) for e in n.elts) and isinstance(n.ctx, ast.Load):
+            # ``(*a, *b, x)``: a sequence whose length is not written down - its elements in order, like the list display
+            # (nothing in the package tells a tuple of unknown length from a list except mutation, which a tuple does not have)
+            segs = self._seq_segs(st, n.elts, tree)
+            if all(sg[0] == "e" or (sg[1][0] != "tuple") for sg in segs):
+                r = self.new_list(segs, n, tree)
+                self.obj(r).from_tuple_display = True
+                return r
+            flat = []
+            for sg in segs:
+                flat.extend(sg[1][1] if sg[0] == "s" and sg[1][0] == "tuple" else [sg[1]]) if (sg[0] == "e" or sg[1][0] == "tuple") else flat.append(("star", sg[1]))
+            return ("tuple", tuple(flat))
         return ("tuple", tuple(self.ev(st, e, tree) for e in n.elts))
 
     def _seq_segs(self, st, elts, tree):
@@ -1066,7 +1078,14 @@ class Interp:
             if is_const(a) and is_const(b) and type(a[1]) is type(b[1]) and isinstance(a[1], (int, str)):
                 return const(a[1] + b[1])
         if op == "BitOr" and isinstance(self.obj(a), HDict) and isinstance(self.obj(b), HDict):
-            return self.new_dict([("**", a), ("**", b)], n, tree)        # d1 | d2: a new dict, right-hand entries win
+            # d1 | d2: a new dict, right-hand entries win (a key keeps the position of its first occurrence)
+            ea, eb = self.obj(a).entries, self.obj(b).entries
+            if all(e[0] != "**" and is_const(e[0]) for e in list(ea) + list(eb)) and not self._dict_mutated(a, tree) and not self._dict_mutated(b, tree):
+                merged = {e[0]: e[1] for e in ea}
+                for e in eb:
+                    merged[e[0]] = e[1]
+                return self.new_dict(list(merged.items()), n, tree)
+            return self.new_dict([("**", a), ("**", b)], n, tree)
         if op == "Mult" and is_const(a) and is_const(b) and isinstance(a[1], (int, str)) and isinstance(b[1], int):
             return const(a[1] * b[1])
         if op == "Sub" and is_const(a) and is_const(b) and isinstance(a[1], int) and isinstance(b[1], int):
@@ -1490,6 +1509,71 @@ class Interp:
             return ("idx", lid)
         return tuple(Interp._subst_loop(x, l0, lid) for x in t)
 
+    def _nest_source(self, it):
+        """([(iterable, loop id), ...], element expression) when ``it`` is a list made by two or more nested comprehension
+        generators without conditions (``[E for a in xs for b in f(a)]``, or ``chain.from_iterable`` of such): walking it is
+        walking the generators again."""
+        levels = []
+        o = self.obj(it)
+        E = None
+        while True:
+            if not (isinstance(o, HList) and not getattr(o, "dirty", False) and len(o.segs) == 1 and o.segs[0][0] == "loop" and len(o.segs[0][2]) == 1):
+                return None
+            l0 = o.segs[0][1]
+            info = self.loops.get(l0, {})
+            if info.get("conds") or info.get("iter") is None or info.get("kind") != "comp":
+                return None
+            levels.append((info["iter"], l0))
+            inner = o.segs[0][2][0]
+            if inner[0] == "e":
+                E = inner[1]
+                break
+            if inner[0] == "s":
+                o = self.obj(inner[1])
+                continue
+            return None
+
+        def plain(t):
+            if not isinstance(t, tuple) or not t:
+                return True
+            if t[0] in ("ref", "phi", "loopout", "drawn"):
+                return False
+            return all(plain(x) for x in t)
+        if len(levels) < 2 or not plain(E) or not all(plain(x) for x, _ in levels[1:]):
+            return None
+        return levels, E
+
+    _nest_ids = itertools.count(1)
+
+    def _nest_rewrite(self, levels, E, target, ifs=()):
+        """The generators ``for g1 in iter1 for g2 in iter2(g1) ... for <target> in [E(g1, g2 ...)]`` as (target, iter, ifs)
+        triples of synthetic syntax: each iterable / the element expression is the recorded term with the recorded loops'
+        elements replaced by the new loop variables."""
+        k = next(self._nest_ids)
+        names = {lid: f"__nest{k}_{i}" for i, (_, lid) in enumerate(levels)}
+
+        def term_node(t, upto):
+            node = ast.Constant(value=None)
+
+            def hook(st_, tree_, t=t, upto=upto):
+                m = {("elem", lid): st_.env[names[lid]] for _, lid in levels[:upto]}
+
+                def sub(x):
+                    if not isinstance(x, tuple):
+                        return x
+                    if x in m:
+                        return m[x]
+                    return tuple(sub(y) for y in x)
+                return sub(t)
+            node._term_hook = hook
+            return node
+        out = []
+        for i, (itx, lid) in enumerate(levels):
+            out.append((ast.Name(id=names[lid], ctx=ast.Store()), term_node(itx, i), []))
+        el = ast.List(elts=[term_node(E, len(levels))], ctx=ast.Load())
+        out.append((target, el, list(ifs)))
+        return out
+
     def _comp_as_loop(self, st, n, tree, kind):
         """``[f(x) for x in xs]`` where evaluating f(x) stores attributes of an object the function holds (a tracker whose
         method both updates and returns its state): the loop ``out = []; for x in xs: out.append(f(x))``, whose carried
@@ -1565,9 +1649,9 @@ class Interp:
                 return st.env.pop(rn)
         return self._comp_rec(st, n, gens, 0, tree, kind)
 
-    def _comp_rec(self, st, n, gens, i, tree, kind):
+    def _comp_rec(self, st, n, gens, i, tree, kind, _it=None):
         g = gens[i]
-        it = self.ev(st, g.iter, tree)
+        it = self.ev(st, g.iter, tree) if _it is None else _it
         if isinstance(self.obj(it), HGen) and self.obj(it).fi is not None and self.obj(it).qualname not in self.no_fuse:
             it = self.force(it, st, tree, n)         # a comprehension over a generator consumes it
         # a generator over a small constant table is unrolled: one group of elements per table entry, in order
@@ -1628,6 +1712,17 @@ class Interp:
                     segs.append(("e", self.ev(f, n.elt, tree)))
             if ok:
                 return self.new_list(segs, n, tree)
+        ns = self._nest_source(it) if not g.is_async else None
+        if ns is not None:
+            # a comprehension over a list that nested generators made: the same generators again, then this one's element
+            trip = self._nest_rewrite(ns[0], ns[1], g.target, g.ifs)
+            gens2 = list(gens[:i]) + [ast.comprehension(target=t_, iter=i_, ifs=f_, is_async=0) for t_, i_, f_ in trip] + list(gens[i + 1:])
+            for g2 in gens2:
+                ast.fix_missing_locations(ast.copy_location(g2, g) if not hasattr(g2, "lineno") else g2)
+                for x in ast.walk(g2):
+                    if not hasattr(x, "lineno"):
+                        ast.copy_location(x, n)
+            return self._comp_rec(st, n, gens2, i, tree, kind, _it=ns[0][0][0])
         lid = next(self._loop)
         f = st.fork()
         ms = self._map_source(it)
@@ -1817,6 +1912,15 @@ class Interp:
             if nm in ("typing.cast", "typing_extensions.cast") and len(args) == 2:
                 self._note_cast(n, args[1])
                 return args[1]
+            if nm == "itertools.chain.from_iterable" and not kwargs and len(args) == 1:
+                o_ = self.obj(args[0])
+                if isinstance(o_, HList) and not getattr(o_, "dirty", False) and len(o_.segs) == 1 and o_.segs[0][0] == "loop" \
+                        and len(o_.segs[0][2]) == 1 and o_.segs[0][2][0][0] == "e" and isinstance(self.obj(o_.segs[0][2][0][1]), HList) \
+                        and not self.loops.get(o_.segs[0][1], {}).get("conds"):
+                    # the elements of the inner sequences, in order: what the nested comprehension would have made
+                    r_ = self.new_list([("loop", o_.segs[0][1], [("s", o_.segs[0][2][0][1])])], n, tree)
+                    self.obj(r_).one_shot = "itertools.chain"
+                    return r_
             pre = self._prelude_for(nm, args, kwargs)
             if pre is not None:
                 return self.call_function(st, self.facts.prelude().functions[pre[0]], pre[1], {}, n, tree)
@@ -1840,6 +1944,13 @@ class Interp:
                 return (nm.rsplit(".", 1)[1], args[0][1])
             if nm in ("operator.attrgetter", "operator.itemgetter") and len(args) > 1 and all(is_const(a) for a in args) and not kwargs:
                 return (nm.rsplit(".", 1)[1], tuple(a[1] for a in args))
+            if nm in ("operator.iconcat", "operator.iadd") and len(args) == 2 and not kwargs and not is_const(args[0]) and args[0][0] != "tuple":
+                # ``a += b`` as a function: a sequence on the left is extended in place and handed back
+                tree.append(("mutate", args[0], "extend", (args[1],), getattr(n, "lineno", None)))
+                o_ = self.obj(args[0])
+                if isinstance(o_, HList):
+                    o_.dirty = True
+                return args[0]
             if nm in ("operator.add", "operator.concat") and len(args) == 2 and not kwargs:
                 la, lb = self.obj(args[0]), self.obj(args[1])
                 if isinstance(la, HList) or isinstance(lb, HList):
@@ -1925,7 +2036,7 @@ class Interp:
     def _callable_known(self, f) -> bool:
         if isinstance(f, tuple) and f and f[0] == "builtin" and f[1] in ("str", "int", "len", "bool", "repr"):
             return True
-        if isinstance(f, tuple) and f and f[0] == "extname" and f[1] in ("re.escape", "operator.add", "operator.concat"):
+        if isinstance(f, tuple) and f and f[0] == "extname" and f[1] in ("re.escape", "operator.add", "operator.concat", "operator.iconcat", "operator.iadd"):
             return True
         return isinstance(f, tuple) and bool(f) and f[0] in ("func", "bound", "closure", "lambda", "partial", "attrgetter", "itemgetter", "class") \
             and (f[0] != "lambda" or len(f) > 3)
@@ -2974,6 +3085,18 @@ class Interp:
         ms = None
         if kind == "for":
             it = self.ev(st, s.iter, tree)
+            ns = self._nest_source(it)
+            if ns is not None and not s.orelse and not any(isinstance(x, ast.Break) for b in s.body for x in ast.walk(b)):
+                # a loop over a list that nested generators made: the same loops again, with this body innermost
+                del self.loops[lid]
+                trip = self._nest_rewrite(ns[0], ns[1], s.target)
+                body = [ast.Assign(targets=[trip[-1][0]], value=trip[-1][1].elts[0])] + list(s.body)
+                for t_, i_, _f in reversed(trip[:-1]):
+                    body = [ast.For(target=t_, iter=i_, body=body, orelse=[], type_comment=None)]
+                for x in ast.walk(body[0]):
+                    if not hasattr(x, "lineno"):
+                        ast.copy_location(x, s)
+                return self._loop_common(body[0], st, tree, "for")
             ms = self._map_source(it)
             if ms is not None:
                 it = ms[0]
@@ -3107,6 +3230,10 @@ class Interp:
             d = self.obj(it[2][0])
             if isinstance(d, HDict) and d.entries and all(e[0] != "**" and is_const(e[0]) for e in d.entries):
                 return [("tuple", (e[0], e[1])) for e in d.entries]
+        # a dictionary of known keys walked directly (or through .keys() / .values()): its keys / values in insertion order
+        d = o if isinstance(o, HDict) else (self.obj(it[2][0]) if it[0] == "call" and it[1] in (".keys", ".values") and len(it[2]) == 1 else None)
+        if isinstance(d, HDict) and d.entries and all(e[0] != "**" and is_const(e[0]) for e in d.entries) and not getattr(d, "dirty", False):
+            return [e[1] for e in d.entries] if it[0] == "call" and it[1] == ".values" else [e[0] for e in d.entries]
         return None
 
     @staticmethod
